@@ -6,6 +6,7 @@ log = sys.argv[1]
 summ = json.load(open("/verif/notes/seed_summaries.json"))
 strong = json.load(open("/verif/notes/strengthened_by.json"))
 RETIRED = {"C15-1": "retired: needs invalid UTF-8 in a result text, impossible since fix 297e363 (caught by C15 on the tree before it)"}
+NOTES = {"C18-6": " (the agent's demonstration relied on scripts that fix c25c758 now refuses; the defect is still caught through refused scripts)"}
 rows = {}
 for line in open(log):
     m = re.match(r"^(C\d\d-\d) confirmed=(\w+) (.*)$", line.strip())
@@ -20,6 +21,7 @@ print("|---|---|---|---|")
 for sid in sorted(rows):
     conf, caught, other = rows[sid]
     c = ", ".join(caught) if caught else "**not caught in this sweep** (%s)" % " ".join(other)
+    c += NOTES.get(sid, "")
     if sid in RETIRED:
         c = RETIRED[sid]
     print("| %s | %s | %s | %s |" % (sid, summ.get(sid, "").replace("|", "\\|"), c, strong.get(sid, "").replace("|", "\\|")))
